@@ -16,7 +16,7 @@ Line protocol of ssv_c13 (one line in, one line out):
       cs ts            bytes the client / the target will send (hex)
       wk wn            wait read outcome: d(ata) e(of) t(imeout) x(error), byte count
       derr             dial error code (`-` = connected)
-      sched            `auto` (a complete schedule) or a comma list of cL<k> cR<k> eL eR fL fR
+      sched            `auto` (= aL,eL,aR,eR) or a comma list of cL<k> cR<k> eL eR fL fR aL aR uL<U>
   native server|client <proto> <tfo>   the regenerated NativeInitialPayload table
   consts             `<defaultInitialPayloadWaitTimeout ns> <defaultInitialPayloadWaitBufferSize>`
   copy cs=… ts=… sched=…   run the two copy loops alone, answer the final state
@@ -40,8 +40,15 @@ def optCode (fs : List String) (k : String) : Option (Option Nat) :=
 def parseSide (c : Char) : Option Side :=
   if c == 'L' then some .left else if c == 'R' then some .right else none
 
-def parseLabel (s : String) : Option Label :=
+/-- schedule tokens: cL<k> cR<k> eL eR fL fR as labels; aL / aR = one chunk with everything the loop still has to read;
+uL<U> = one chunk on the left loop that brings the total uplink (DialStream payload + copied) to U bytes -/
+def parseLabel (s : String) (leftTodo rightTodo paylen : Nat) : Option Label :=
   match s.toList with
+  | ['a', 'L'] => some (.chunk .left leftTodo)
+  | ['a', 'R'] => some (.chunk .right rightTodo)
+  | 'u' :: 'L' :: rest => do
+    let u ← (String.ofList rest).toNat?
+    pure (.chunk .left (u - paylen))
   | 'c' :: sd :: rest => do
     let side ← parseSide sd
     let k ← (String.ofList rest).toNat?
@@ -50,12 +57,9 @@ def parseLabel (s : String) : Option Label :=
   | ['f', sd] => (parseSide sd).map .fail
   | _ => none
 
-def parseSched (s : String) (cs ts : Bytes) (wb : Nat) : Option (List Label) :=
-  if s == "auto" then
-    some [.chunk .left (cs.length - wb), .chunk .left wb, .chunk .left cs.length, .eof .left,
-          .chunk .right ts.length, .eof .right]
-  else if s == "-" then some []
-  else (s.splitOn ",").mapM parseLabel
+def parseSched (s : String) (leftTodo rightTodo paylen : Nat) : Option (List Label) :=
+  if s == "-" then some []
+  else ((if s == "auto" then "aL,eL,aR,eR" else s).splitOn ",").mapM (fun t => parseLabel t leftTodo rightTodo paylen)
 
 def parseKind : String → Option ReadKind
   | "d" => some .data
@@ -87,7 +91,12 @@ def parseEnv (fs : List String) : Option Env := do
                     routeErr := rerr, clientNative := cn, proceedOk := pok, setDeadlineOk := sdl,
                     clientStream := cs, waitKind := wk, waitN := wn, clearDeadlineOk := cdl,
                     dialErr := derr, targetStream := ts, sched := [] }
-  let sched ← parseSched (← kv fs "sched") cs ts (waitBytes e0)
+  -- what the left loop has to read and what DialStream carries depend on the wait decision (closed form `waits`,
+  -- proved equal to the interpreted condition in SSV.Proofs.TcpRelay.handleConn_cases)
+  let w := hasReq && waits e0 { addr := addr, payload := pay, user := "" }
+  let consumed := if w then waitBytes e0 else 0
+  let paylen := if w then waitBytes e0 else pay.length
+  let sched ← parseSched (← kv fs "sched") (cs.length - consumed) ts.length paylen
   pure { e0 with sched := sched }
 
 def nativeOf (tbl : List (String × Native)) (proto : String) (tfo : Bool) : String :=
@@ -111,7 +120,7 @@ def stepC13 (u : Unit) (line : String) : Unit × String :=
     match (do
       let cs ← ofHex? (← kv fs "cs")
       let ts ← ofHex? (← kv fs "ts")
-      let sched ← parseSched (← kv fs "sched") cs ts 0
+      let sched ← parseSched (← kv fs "sched") cs.length ts.length 0
       pure (runSched (CopySt.init cs ts) sched)) with
     | some c => (u, s!"rxR={toHexField c.rxR} rxL={toHexField c.rxL} cwR={b01 c.cwR} cwL={b01 c.cwL} doneL={b01 c.doneL} doneR={b01 c.doneR} failL={b01 c.failL} failR={b01 c.failR} nL={c.nL} nR={c.nR}")
     | none => (u, "bad-op")
